@@ -411,19 +411,25 @@ def _args_lean(args):
 
 
 class Call(E):
-    """static call of a top-level function (or of an instance of a generic function)"""
+    """static call of a top-level function (or of an instance of a generic function).  For a variadic function the
+    arguments beyond the fixed parameters are packed into a fresh slice (nil when there are none) unless `spread`"""
 
-    def __init__(self, fn, args):
-        self.fn, self.args = fn, args
+    def __init__(self, fn, args, spread=False):
+        self.fn, self.args, self.spread = fn, args, spread
         self.ty = fn.results[0].ty if len(fn.results) == 1 else None
 
     def kids(self):
         return self.args
 
     def go(self, cx):
-        return '%s(%s)' % (self.fn.go_ref(cx), _args_go(self.args, cx))
+        return '%s(%s%s)' % (self.fn.go_ref(cx), _args_go(self.args, cx), '...' if self.spread else '')
 
     def lean(self):
+        if getattr(self.fn, 'variadic', False) and not self.spread:
+            nfix = len(self.fn.params) - 1
+            rest = self.args[nfix:]
+            packed = '(slice%s)' % _args_lean(rest) if rest else '(nil slice)'
+            return '(call %d%s %s)' % (self.fn.id, _args_lean(self.args[:nfix]), packed)
         return '(call %d%s)' % (self.fn.id, _args_lean(self.args))
 
 
@@ -471,6 +477,39 @@ class ICall(E):
 
     def lean(self):
         return '(icall %s %s%s)' % (self.recv.lean(), self.name, _args_lean(self.args))
+
+
+class MVal(E):
+    """method value `x.M`: the receiver is evaluated (and copied, for value receivers) now"""
+
+    def __init__(self, recv, name, fty):
+        self.recv, self.name, self.ty = recv, name, fty
+
+    def kids(self):
+        return [self.recv]
+
+    def go(self, cx):
+        return '%s.%s' % (self.recv.go(cx), self.name)
+
+    def lean(self):
+        t = self.recv.ty
+        if isinstance(t, tuple) and t[0] == 'named' and t[1].kind == 'iface':
+            return '(imval %s %s)' % (self.recv.lean(), self.name)
+        return '(mval %s %s %s)' % (self.recv.lean(), lean_type(t), self.name)
+
+
+class MethodExpr(E):
+    """method expression `T.M` / `(*T).M` of a method declared on T itself: the function with the receiver as first parameter"""
+
+    def __init__(self, fn, fty):
+        self.fn, self.ty = fn, fty
+
+    def go(self, cx):
+        t = go_type(('named', self.fn.recv[0]), cx)
+        return ('(*%s).%s' if self.fn.recv[1] else '%s.%s') % (t, self.fn.mname)
+
+    def lean(self):
+        return '(fref %d)' % self.fn.id
 
 
 class FuncRef(E):
@@ -1140,7 +1179,10 @@ class Func:
         return cx.q(self.pkg, self.name)
 
     def _sig_go(self, cx, params):
-        ps = ', '.join('%s %s' % (p.name, go_type(p.ty, cx)) for p in params)
+        pl = ['%s %s' % (p.name, go_type(p.ty, cx)) for p in params]
+        if getattr(self, 'variadic', False) and params:
+            pl[-1] = '%s ...%s' % (params[-1].name, go_type(params[-1].ty[1], cx))
+        ps = ', '.join(pl)
         if not self.results:
             rs = ''
         elif self.named_results:
